@@ -663,6 +663,20 @@ func TestC14Config(t *testing.T) {
 	n := kit.N(1500, 25000)
 	for i := 0; i < n; i++ {
 		c := genCfg(r)
+		if i%10 == 3 && len(c.stages) >= 2 {
+			// staged stages that take their iteration frequency (and their sub-stages) from the default
+			// section, an earlier one shorter than that frequency, a later one longer: each stage's tick
+			// interval is the configured frequency (or the distribution's sub-tick), whatever came before
+			sp := func(v string) *string { return &v }
+			c.def.mode, c.def.stages = sp("staged"), sp("100ms:10,200ms:0")
+			c.def.freq = ip(kit.Pick(r, int64(1_000_000_000), 2_000_000_000, 500_000_000))
+			for k := 0; k < 2; k++ {
+				c.stages[k].mode, c.stages[k].freq, c.stages[k].stages = nil, nil, nil
+			}
+			c.stages[0].dur = ip(kit.Pick(r, int64(400_000_000), 100_000_000, 300_000_000))
+			c.stages[1].dur = ip(kit.Pick(r, int64(3_000_000_000), 5_000_000_000))
+			o.Count("config", "staged stages inheriting the default iteration frequency, a short one first")
+		}
 		y := c.yaml()
 		// now: before start, at every stage boundary +-1ns, after the end
 		var now int64 = 1_700_000_000_000_000_000 + r.Range(0, 2000)*1_000_000_000
